@@ -769,6 +769,13 @@ class MiniEval:
                 return fn(*args, **kwargs)
             except (KeyError, IndexError) as ex:
                 raise Raised(f"{type(ex).__name__} in `{u(e)}`", e)
+            except (ValueError, UnicodeError, OverflowError, ZeroDivisionError) as ex:
+                # a library function of a safe module (base64, re, int.from_bytes, bytes.fromhex ...) or a method of a
+                # builtin value rejected concrete arguments: the analysed code raises the same exception at run time
+                mod = getattr(fn, "__module__", None) or getattr(getattr(fn, "__self__", None), "__class__", type(None)).__module__
+                if mod in SAFE_MODULES or mod in ("builtins", "binascii", "_struct", "_codecs"):
+                    raise Raised(f"{type(ex).__name__}: {ex} in `{u(e)}`", e)
+                raise
         raise AnalysisError(f"{self.where}: `{u(e)}` calls a non-callable abstract value {fn!r}")
 
     def call_def(self, fnode, args: list, kwargs: dict, closure_env: Dict[str, Any]):
